@@ -16,7 +16,7 @@ class Stage:
                  link_lib=True, common=True, env=None, per_worker_env=None, nworkers=None, need_snapshots=False,
                  extra_flags=(), post=None, tools=False, wrapper=()):
         self.name, self.harness, self.variant = name, harness, variant
-        if os.environ.get("VERIF_VARIANT_OVERRIDE") and variant == "asan":      # bin/covreport: same workload on the coverage build
+        if os.environ.get("VERIF_VARIANT_OVERRIDE") and variant in ("asan", "tsan"):      # bin/covreport: same workload on the coverage build
             self.variant = os.environ["VERIF_VARIANT_OVERRIDE"]
         self.tools = tools
         self.wrapper = list(wrapper)
